@@ -223,3 +223,79 @@ func VH_C03_hostile() {
 		}
 	}
 }
+
+// VH_C03_merge: the rarely used receiver modes. A (possibly honest) sender announces a regular file
+// "a" and "b", a hard link to it; the receiver runs in merge mode and/or metadata-only mode with a
+// solver-chosen selection, over a destination that already holds, under the announced names,
+// symlinks pointing at a file and a directory outside. Whatever the combination, nothing outside
+// the destination is created, modified, re-owned, re-moded or deleted.
+func VH_C03_merge() {
+	m.Reset()
+	out := m.Root("out")
+	dest := m.Root("dest")
+	m.MkFile(out+"/secret", []byte("s"), 0600, 1, 1, 5)
+	m.MkDir(out+"/sub", 0700, 1, 1, 5)
+	// pre-existing destination entries under the names the sender will announce
+	for _, n := range []string{"a", "b"} {
+		switch v.Choose("prior-"+n, 4) {
+		case 1:
+			m.MkSymlink(dest+"/"+n, "../out/secret", 0, 0, 5)
+		case 2:
+			m.MkSymlink(dest+"/"+n, "../out/sub", 0, 0, 5)
+		case 3:
+			m.MkFile(dest+"/"+n, []byte("old"), 0600, 7, 7, 5)
+		}
+	}
+	before := m.Snapshot(out)
+	sel := map[string]bool{"a": v.Bool("select-a"), "b": v.Bool("select-b")}
+	opt := ReceiveOpt{Merge: v.Bool("merge")}
+	if v.Bool("metadata-only") {
+		opt.MetadataOnly = func(p string, st *types.Stat) bool { return sel[p] }
+		v.Cover("metadata-only")
+	}
+	ctx := context.Background()
+	rcv, snd := vh_newStreamPair(ctx, 64)
+	var recvErr error
+	done := make(chan struct{})
+	go func() {
+		recvErr = Receive(ctx, rcv, dest, opt)
+		close(done)
+	}()
+	mode := uint32(0644) | (v.U32("special") & uint32(os.ModeSetuid|os.ModeSetgid|os.ModeSticky))
+	snd.SendMsg(&types.Packet{Type: types.PACKET_STAT, Stat: &types.Stat{Path: "a", Mode: mode, Uid: 9, Gid: 9, Size: 1, ModTime: vh_mtimes()[0]}})
+	snd.SendMsg(&types.Packet{Type: types.PACKET_STAT, Stat: &types.Stat{Path: "b", Mode: mode, Uid: 9, Gid: 9, Size: 1, ModTime: vh_mtimes()[0], Linkname: "a"}})
+	snd.SendMsg(&types.Packet{Type: types.PACKET_STAT})
+	for fin := false; !fin; {
+		var p types.Packet
+		select {
+		case <-done:
+			fin = true
+			continue
+		default:
+		}
+		if err := snd.RecvMsg(&p); err != nil {
+			break
+		}
+		switch p.Type {
+		case types.PACKET_REQ:
+			snd.SendMsg(&types.Packet{Type: types.PACKET_DATA, ID: p.ID, Data: []byte{7}})
+			snd.SendMsg(&types.Packet{Type: types.PACKET_DATA, ID: p.ID})
+		case types.PACKET_FIN:
+			snd.SendMsg(&types.Packet{Type: types.PACKET_FIN})
+			snd.CloseSend()
+			fin = true
+		case types.PACKET_ERR:
+			snd.CloseSend()
+			fin = true
+		}
+	}
+	<-done
+	v.Observe("failed", recvErr != nil)
+	v.Assert(vh_sentinelUnchanged(before, m.Snapshot(out)), "nothing outside the destination was created, modified, re-owned, re-moded or deleted (merge / metadata-only modes)")
+	for _, op := range m.Ops() {
+		if op.Kind != "read" {
+			v.Assert(vh_isUnder(op.Path, dest), "every mutating file-system operation resolves strictly inside the destination (merge / metadata-only modes)")
+		}
+	}
+	v.Cover("done")
+}
